@@ -22,6 +22,8 @@ pub struct Cfg {
     pub all_silent: bool,
     /// 200 peers are announced on the info-hash used by the get_peers probes (the reply has to be cut down)
     pub crowded: bool,
+    /// contacts 2k and 2k+1 use the same id (two nodes, one id)
+    pub twins: bool,
     pub v6: bool,
     pub rng_seed: u64,
 }
@@ -79,10 +81,11 @@ fn targets() -> Vec<[u8; 20]> {
 pub fn build(cfg: &Cfg) -> (Scenario, Vec<Box<dyn Peer>>) {
     let mut sc = Scenario::new("reply-node-lists");
     sc.rng_seed = cfg.rng_seed;
-    let universe: Arc<Vec<([u8; 20], SocketAddr)>> = Arc::new((0..cfg.contacts).map(|i| (c_id(i), c_addr(i, cfg.v6))).collect());
+    let id_of = |i: usize| if cfg.twins && i % 2 == 1 { c_id(i - 1) } else { c_id(i) };
+    let universe: Arc<Vec<([u8; 20], SocketAddr)>> = Arc::new((0..cfg.contacts).map(|i| (id_of(i), c_addr(i, cfg.v6))).collect());
     let mut peers: Vec<Box<dyn Peer>> = vec![];
     for i in 0..cfg.contacts {
-        let mut r = Responder::new(c_addr(i, cfg.v6), c_id(i), universe.clone());
+        let mut r = Responder::new(c_addr(i, cfg.v6), id_of(i), universe.clone());
         if cfg.all_silent {
             r.silent_from = Some(2_000);
         }
@@ -108,7 +111,11 @@ pub fn build(cfg: &Cfg) -> (Scenario, Vec<Box<dyn Peer>>) {
         sc.actions.push((When::At(*t), Action::LoadContacts { node: 0, tag: format!("contacts{k}") }));
         sc.actions.push((When::At(*t), Action::ProbeTable { node: 0, from: prober(), tag: format!("dump{k}") }));
         for (j, target) in tg.iter().enumerate() {
-            for (w, want) in [None, Some(vec!["n4"]), Some(vec!["n6"]), Some(vec!["n4", "n6"])].iter().enumerate() {
+            for (w, want) in [None, Some(vec!["n4"]), Some(vec!["n6"]), Some(vec!["n4", "n6"]), Some(vec!["n6", "n4"]), Some(vec!["n6", "n6"]), Some(vec!["n4", "n4"]), Some(vec!["n4", "zz"]), Some(vec![])].iter().enumerate() {
+                // the less usual want lists on a third of the targets
+                if w >= 4 && j % 3 != 0 {
+                    continue;
+                }
                 let tid = format!("q{k}-{j:02}-{w}f");
                 sc.actions.push((When::At(*t), Action::Inject { from: asker(cfg.v6), to: n_addr(cfg.v6), bytes: krpc::find_node(tid.as_bytes(), &[0x33; 20], target, want.as_deref()), tag: String::new() }));
                 let tid = format!("q{k}-{j:02}-{w}g");
@@ -164,9 +171,9 @@ pub fn judge(cfg: &Cfg, res: &RunResult) -> (Vec<(String, String)>, u64, Vec<usi
             let target = tg[j];
             checked += 1;
             let (want4, want6) = match w {
-                0 => (!cfg.v6, cfg.v6),
-                1 => (true, false),
-                2 => (false, true),
+                0 | 8 => (!cfg.v6, cfg.v6),
+                1 | 6 | 7 => (true, false),
+                2 | 5 => (false, true),
                 _ => (true, true),
             };
             for (list, is6, wanted) in [(&p.nodes, false, want4), (&p.nodes6, true, want6)] {
@@ -205,7 +212,7 @@ pub fn judge(cfg: &Cfg, res: &RunResult) -> (Vec<(String, String)>, u64, Vec<usi
 }
 
 fn cfg_json(c: &Cfg) -> Value {
-    json!({"contacts":c.contacts,"some_silent":c.some_silent,"all_silent":c.all_silent,"crowded":c.crowded,"v6":c.v6,"rng_seed":c.rng_seed})
+    json!({"contacts":c.contacts,"some_silent":c.some_silent,"all_silent":c.all_silent,"crowded":c.crowded,"twins":c.twins,"v6":c.v6,"rng_seed":c.rng_seed})
 }
 
 pub fn replay(v: &Value) -> i32 {
@@ -223,7 +230,7 @@ pub fn replay(v: &Value) -> i32 {
         return code;
     }
     let c = &v["cfg"];
-    let cfg = Cfg { contacts: c["contacts"].as_u64().unwrap_or(9) as usize, some_silent: c["some_silent"].as_bool().unwrap_or(false), all_silent: c["all_silent"].as_bool().unwrap_or(false), crowded: c["crowded"].as_bool().unwrap_or(false), v6: c["v6"].as_bool().unwrap_or(false), rng_seed: c["rng_seed"].as_u64().unwrap_or(1) };
+    let cfg = Cfg { contacts: c["contacts"].as_u64().unwrap_or(9) as usize, some_silent: c["some_silent"].as_bool().unwrap_or(false), all_silent: c["all_silent"].as_bool().unwrap_or(false), crowded: c["crowded"].as_bool().unwrap_or(false), twins: c["twins"].as_bool().unwrap_or(false), v6: c["v6"].as_bool().unwrap_or(false), rng_seed: c["rng_seed"].as_u64().unwrap_or(1) };
     let (sc, peers) = build(&cfg);
     let res = sim::run(&sc, peers, &mut sim::DefaultChooser);
     let (viol, checked, sizes) = judge(&cfg, &res);
@@ -240,13 +247,19 @@ pub fn run(tier: Tier, rep: &mut Report) {
     for contacts in tier.pick(vec![3usize, 9, 17], vec![1, 3, 9, 17, 30]) {
         for some_silent in [false, true] {
             for v6 in [false, true] {
-                cfgs.push(Cfg { contacts, some_silent, all_silent: false, crowded: false, v6, rng_seed: seed });
+                cfgs.push(Cfg { contacts, some_silent, all_silent: false, crowded: false, twins: false, v6, rng_seed: seed });
             }
         }
     }
     for contacts in [3usize, 9, 12] {
         for v6 in [false, true] {
-            cfgs.push(Cfg { contacts, some_silent: false, all_silent: true, crowded: false, v6, rng_seed: seed });
+            cfgs.push(Cfg { contacts, some_silent: false, all_silent: true, crowded: false, twins: false, v6, rng_seed: seed });
+        }
+    }
+    // two nodes under one id
+    for contacts in [4usize, 9, 10] {
+        for v6 in [false, true] {
+            cfgs.push(Cfg { contacts, some_silent: false, all_silent: false, crowded: false, twins: true, v6, rng_seed: seed });
         }
     }
     let outs = par_map(&cfgs, |_, cfg| {
